@@ -26,10 +26,14 @@ MANIFEST = {
             "C09/C10). Proved by structural induction over the instance: shape of the emitted children, completeness of the reader's fold over them (sequence check, duplicate "
             "check, values), canonical constructor arguments. The class-table hypothesis is a decidable condition proved sound and evaluated by the kernel on the table "
             "regenerated from /repo (all concrete classes pass, the three with a groom/ungroom rename included, except TAX1099INT_V100); instance validity is a decidable predicate proved sound and evaluated on "
-            "real instances of every class. The implementation is exercised on every class x {XML, SGML closed, SGML unclosed} x {pretty, plain} x header versions: bytes from "
-            "OFXClient.serialize, parsed by OFXTree, converted, deep-compared.",
-    "note": "Trusted: Coq kernel + vm_compute; translator; hand transcription Model/Convert.v validated by correspondence; ET serializer / tokenizer / header parser are exercised, "
-            "not modelled, in this check (C02/C05/C12 model them). Print Assumptions: closed under the global context.",
+            "real instances of every class (also with the engines' converters alone: TValidM). Composed with the wire theorem (C02), the header theorems (C05) and the "
+            "concrete converters (C10, C09) into statements over the BYTES of a file. The implementation is exercised on every class x {XML, SGML closed, SGML unclosed} x "
+            "{pretty, plain} x header versions: bytes from OFXClient.serialize, parsed by OFXTree, converted, deep-compared; the typed model (no converter table) is run "
+            "on every instance and document.",
+    "note": "Trusted: Coq kernel + vm_compute; translators; hand transcriptions (Model/Convert.v, Header.v, Sgml.v, Serialize.v, Scalars.v, DateTimeM.v) validated by "
+            "correspondence and pinned by source hashes. The byte-level theorems file_roundtrip_v2 / _v1, client_bytes_roundtrip_v2 / _v1 and typed_file_roundtrip_v2 / _v1 "
+            "compose the header engine (C05), the tokenizer / tree builder / serializers (C02) and the schema engine with the concrete converters of C10 and C09: no "
+            "hypothesis is left on the converters (typed_valid_is_valid). Print Assumptions: closed under the global context; coqchk: no axioms.",
 }
 V1 = [102, 103, 151, 160]
 V2 = [200, 201, 202, 203, 210, 211, 220]
